@@ -1,0 +1,34 @@
+//go:build verif
+
+package plush
+
+import (
+	"sync/atomic"
+
+	"github.com/gobuffalo/plush/v5/ast"
+)
+
+// Verification hooks H2/H3 (build tag verif only).
+
+// VerifProgram gives read-only access to the parsed program of a template
+// (H2), so a monitor can snapshot it before and after an execution.
+func VerifProgram(t *Template) *ast.Program { return t.program }
+
+var verifYieldFn atomic.Pointer[func()]
+
+// VerifSetYield installs (or, with nil, removes) a function that is called
+// between statements of an executing template (H3). No engine lock is held at
+// those points.
+func VerifSetYield(f func()) {
+	if f == nil {
+		verifYieldFn.Store(nil)
+		return
+	}
+	verifYieldFn.Store(&f)
+}
+
+func verifYield() {
+	if f := verifYieldFn.Load(); f != nil {
+		(*f)()
+	}
+}
